@@ -98,6 +98,17 @@ class Legacy(Command):
     output = params.StringParameter()
     def execute(self, **kw): return "upkg._legacy.Legacy"
 ''',
+    "ukw.py": '''
+from mpilot import params
+from mpilot.commands import Command
+class MEAN(Command):
+    """A user command named like an EEMS 2.0 keyword."""
+    output = params.StringParameter()
+    def execute(self, **kw): return "ukw.MEAN"
+class AND(Command):
+    output = params.StringParameter()
+    def execute(self, **kw): return "ukw.AND"
+''',
     "umeta.py": '''
 from abc import ABCMeta
 from mpilot import params
@@ -206,7 +217,7 @@ def describe(libs):
     lib = {}
     for name, cls in sorted(p.command_library.items()):
         entry = {"module": cls.__module__}
-        if cls.__module__.split(".")[0] in ("ulib", "ulib_extra", "ulibx", "other", "upkg", "upkg_more", "upkg_one", "upkgzone", "updup", "__main__", "usub", "umeta"):
+        if cls.__module__.split(".")[0] in ("ulib", "ulib_extra", "ulibx", "other", "upkg", "upkg_more", "upkg_one", "upkgzone", "updup", "__main__", "usub", "umeta", "ukw"):
             try:
                 p.add_command(cls, "probe_" + name, {})
                 entry["behaviour"] = p.commands["probe_" + name].result
@@ -216,7 +227,7 @@ def describe(libs):
     # names reachable through a command file: a built-in name in MPilot form and in EEMS 2.0 form must resolve (or not)
     # exactly as the selected libraries say
     lookups = {}
-    for form, text in (("mpilot", "S = Sum(InFieldNames = [Q])"), ("eems2", "SUM(InFieldNames = [Q], NewFieldName = S)"), ("eems2-not", "NOT(InFieldName = Q, NewFieldName = S)")):
+    for form, text in (("mpilot", "S = Sum(InFieldNames = [Q])"), ("eems2", "SUM(InFieldNames = [Q], NewFieldName = S)"), ("eems2-not", "NOT(InFieldName = Q, NewFieldName = S)"), ("eems2-mean", "MEAN(InFieldNames = [Q], NewFieldName = S)")):
         try:
             Program.from_source(text, libraries=tuple(libs))
             lookups[form] = "loaded"
@@ -258,6 +269,23 @@ def describe(libs):
             lookups[form] = "%s" % type(e).__name__
         except Exception as e:
             lookups[form] = "raw:" + type(e).__name__
+    # the libraries handed over as a list that the caller goes on using for another program
+    try:
+        shared = list(libs)
+        first = Program(libraries=shared)
+        before = sorted(first.command_library)
+        shared.append("other" if "other" not in libs else "ulibx")
+        try:
+            Program(libraries=shared)
+        except MPilotError:
+            pass
+        miss = first.find_command_class("Delta" if "other" not in libs else "Gamma")
+        after = sorted(first.command_library)
+        lookups["libraries-list-extended-later"] = "unchanged" if before == after and miss is None else "changed:%s:%s" % (sorted(set(after) - set(before))[:3], getattr(miss, "__module__", None))
+    except MPilotError as e:
+        lookups["libraries-list-extended-later"] = "raises:" + type(e).__name__
+    except Exception as e:
+        lookups["libraries-list-extended-later"] = "raw:" + type(e).__name__
     return {"outcome": "ok", "library": lib, "lookups": lookups}
 
 
@@ -317,6 +345,13 @@ def main():
                 from mpilot import params
                 ns = {"__module__": step[2] if len(step) > 2 else "__main__", "output": params.StringParameter(), "execute": lambda self, **kw: "defined-in-history"}
                 type(Command)(step[1], (Command,), ns)
+            elif kind == "getcmds":
+                # some earlier code narrows down the collection it got from the public Command.get_commands()
+                from mpilot.commands import Command
+                got_ = Command.get_commands()
+                for meth in ("clear",):
+                    if hasattr(got_, meth):
+                        getattr(got_, meth)()
             elif kind == "run":
                 from mpilot.program import Program
                 p = Program.from_source(step[2], libraries=tuple(step[1]))
